@@ -245,6 +245,21 @@ impl Model {
         }
     }
 
+    /// retention discarded data these connections / saved sessions had not read on `filter`
+    pub fn mark_lagged(&mut self, filter: &str, conn_ids: &[usize], names: &[String]) {
+        for (ci, c) in self.clients.iter_mut().enumerate() {
+            let hit = (c.registered && conn_ids.contains(&c.conn_id)) || names.iter().any(|n| n == super::NAMES[ci]);
+            if !hit {
+                continue;
+            }
+            for s in c.subs.iter_mut() {
+                if s.active && s.match_filter == filter {
+                    s.lagged = true;
+                }
+            }
+        }
+    }
+
     pub fn register_will(&mut self, ci_name: &str, topic: String, payload: Vec<u8>, qos: u8, retain: bool) {
         self.wills.insert(ci_name.to_string(), (topic, payload, qos, retain));
     }
@@ -404,7 +419,7 @@ impl Model {
                     }
                 }
             }
-            Tx::PubRel(pkid) => match self.clients[ci].q2_recorded.pop_front() {
+            Tx::PubRel(pkid) | Tx::PubRelProps(pkid) => match self.clients[ci].q2_recorded.pop_front() {
                 Some(h) => {
                     self.clients[ci].replies_expected.push_back(Rx::PubComp(*pkid));
                     let m = self.held[h as usize].clone();
@@ -690,6 +705,16 @@ impl Model {
                     if let Some(e) = s.expect.get(p as usize) {
                         if self.content_is(*e, topic, payload) {
                             cand = Some(p);
+                        }
+                    }
+                    if cand.is_none() && s.lagged {
+                        // retention discarded part of this subscription's backlog: messages
+                        // may be skipped, never reordered or repeated
+                        for q in p + 1..s.expect.len() as u32 {
+                            if self.content_is(s.expect[q as usize], topic, payload) {
+                                cand = Some(q);
+                                break;
+                            }
                         }
                     }
                     if cand.is_none() && s.qos == 0 && p < s.skip_to {
